@@ -72,6 +72,11 @@ func (sess *UserSession) Copy(numSet imap.NumSet, destName string) (*imap.CopyDa
 		destUIDs.AddNum(appendData.UID)
 	})
 
+	if len(sourceUIDs) == 0 {
+		// No message was copied: there is no COPYUID to report
+		return nil, nil
+	}
+
 	return &imap.CopyData{
 		UIDValidity: dest.uidValidity,
 		SourceUIDs:  sourceUIDs,
@@ -108,6 +113,11 @@ func (sess *UserSession) Move(w *imapserver.MoveWriter, numSet imap.NumSet, dest
 	// The EXPUNGE updates are queued for every session of the mailbox,
 	// including this one: they are sent when the command completes.
 	sess.mailbox.expungeLocked(expunged)
+
+	if len(sourceUIDs) == 0 {
+		// No message was moved: there is no COPYUID to report
+		return nil
+	}
 
 	return w.WriteCopyData(&imap.CopyData{
 		UIDValidity: dest.uidValidity,
